@@ -28,6 +28,7 @@ class Obl:
     line: int
     ok: bool
     text: str
+    recognised: bool = True  # False: the checker could not match the code against the shape it knows (undecided, not a verdict)
 
 
 def modules():
@@ -338,10 +339,11 @@ def loop_obligations():
                 v = VARIANTS.get(key)
                 ok = v is not None
                 text = f"while loop #{i} at line {w.lineno}: " + (f"variant [{v[0]}] {v[1]}" if v else "no variant on record for this loop")
+                recognised = True
                 if ok:
-                    ok, extra = _check_variant_shape(mname, q, w, v[0], tree, fn)
-                    text += "" if ok else f" - but the loop no longer has the recorded shape: {extra}"
-                out.append(Obl("loop-has-variant", f"{mname}.{q}", w.lineno, ok, text))
+                    ok, extra, recognised = _check_variant_shape(mname, q, w, v[0], tree, fn)
+                    text += "" if ok else (f" - but {extra}" if recognised else f" - the loop does not have the shape the variant was recorded for: {extra}")
+                out.append(Obl("loop-has-variant", f"{mname}.{q}", w.lineno, ok, text, recognised))
             # direct recursion
             short = q.split(".")[-1]
             rec = [n for n in ast.walk(fn) if isinstance(n, ast.Call) and ((isinstance(n.func, ast.Attribute) and n.func.attr == short and isinstance(n.func.value, ast.Name) and n.func.value.id == "self") or (isinstance(n.func, ast.Name) and n.func.id == short and "." not in q))]
@@ -375,37 +377,107 @@ def _is_inplace_delegation(fn, rec_calls):
         all(any(k.arg == "inplace" for k in c.keywords) and isinstance(c.func.value, ast.Name) and c.func.value.id in ("svg",) for c in rec_calls)
 
 
+def _len_bound(test):
+    """`A < len(B)` -> (A, B) names, else None"""
+    if isinstance(test, ast.Compare) and len(test.ops) == 1 and isinstance(test.ops[0], ast.Lt) and isinstance(test.left, ast.Name):
+        c = test.comparators[0]
+        if isinstance(c, ast.Call) and isinstance(c.func, ast.Name) and c.func.id == "len" and len(c.args) == 1 and isinstance(c.args[0], ast.Name):
+            return test.left.id, c.args[0].id
+    return None
+
+
+def _increments(w, name):
+    """constants added to `name` by augmented assignments in the loop, None if it is assigned in any other way"""
+    incs = []
+    for n in ast.walk(w):
+        if isinstance(n, ast.AugAssign) and isinstance(n.target, ast.Name) and n.target.id == name:
+            if isinstance(n.op, ast.Add) and isinstance(n.value, ast.Constant) and isinstance(n.value.value, int):
+                incs.append(n.value.value)
+            else:
+                return None
+        if isinstance(n, ast.Assign) and any(isinstance(t, ast.Name) and t.id == name for t in n.targets):
+            return None
+    return incs
+
+
 def _check_variant_shape(mname, q, w, kind, tree, fn=None):
-    src = ast.unparse(w)
+    """-> (ok, explanation, recognised).  Shapes are matched on the structure of the loop, not on the names of its variables;
+    a loop that does not have the known shape is `not recognised` (undecided), a recognised loop that breaks the variant is a
+    failure."""
     if kind == "worklist":
-        ok = (".pop" in src or "next_fn(" in src) and "while frontier" in src
-        return ok, "expected `while frontier:` with a pop per iteration"
+        # `while F:` where every iteration takes one entry off F (F.pop / F.popleft, or F handed to the take-one callback)
+        if not isinstance(w.test, ast.Name):
+            return False, "expected `while <worklist>:`", False
+        f = w.test.id
+        takes = [n for n in ast.walk(w) if isinstance(n, ast.Call) and ((isinstance(n.func, ast.Attribute) and n.func.attr in ("pop", "popleft") and isinstance(n.func.value, ast.Name) and n.func.value.id == f)
+                                                                      or (isinstance(n.func, ast.Name) and any(isinstance(a, ast.Name) and a.id == f for a in n.args)))]
+        first = w.body[0] if w.body else None
+        ok = bool(takes) and first is not None and any(t in list(ast.walk(first)) for t in takes)
+        return ok, "the first statement of the body no longer takes an entry off the worklist", True
     if kind == "ancestor-walk":
-        return "getparent()" in ast.unparse(w.test) and "= el.getparent()" in src, "expected el = el.getparent()"
+        walks = [n for n in ast.walk(w) if isinstance(n, ast.Assign) and len(n.targets) == 1 and isinstance(n.targets[0], ast.Name) and isinstance(n.value, ast.Call)
+                 and isinstance(n.value.func, ast.Attribute) and n.value.func.attr == "getparent" and isinstance(n.value.func.value, ast.Name) and n.value.func.value.id == n.targets[0].id]
+        if "getparent()" not in ast.unparse(w.test):
+            return False, "expected a loop guarded by `<el>.getparent() is not None`", False
+        return bool(walks) and walks[0] in w.body, "the body no longer steps to the parent unconditionally", True
     if kind == "counter":
-        return "i += 2" in src and "i += 1" in src and ast.unparse(w.test) == "i < len(sub_args)", "expected i += 1 / i += 2 under i < len(sub_args)"
+        ab = _len_bound(w.test)
+        if ab is None:
+            return False, "expected `while <i> < len(<seq>):`", False
+        incs = _increments(w, ab[0])
+        if incs is None or not incs:
+            return False, f"`{ab[0]}` is not advanced by constant increments only", False
+        # every path through the body must advance: the increments sit directly in the body or in both arms of an if
+        def advances(stmts):
+            for st in stmts:
+                if isinstance(st, ast.AugAssign) and isinstance(st.target, ast.Name) and st.target.id == ab[0]:
+                    return True
+                if isinstance(st, ast.If) and st.orelse and advances(st.body) and advances(st.orelse):
+                    return True
+            return False
+        return all(v > 0 for v in incs) and advances(w.body), f"`{ab[0]}` is not advanced by a positive amount on every path", True
     if kind == "lexicographic":
-        ok = ast.unparse(w.test) == "j < len(raw_args)" and "raw_args[j] = arg[end:]" in src and "j += 1" in src
-        if ok:
-            # progress needs a non-empty match: minimum width of the argument regexes, computed from the compiled patterns
-            import re
+        ab = _len_bound(w.test)
+        if ab is None:
+            return False, "expected `while <j> < len(<tokens>):`", False
+        j, toks = ab
+        shrink = [n for n in ast.walk(w) if isinstance(n, ast.Assign) and len(n.targets) == 1 and isinstance(n.targets[0], ast.Subscript) and isinstance(n.targets[0].value, ast.Name)
+                  and n.targets[0].value.id == toks and ast.unparse(n.targets[0].slice) == j and isinstance(n.value, ast.Subscript) and isinstance(n.value.slice, ast.Slice)
+                  and n.value.slice.lower is not None and n.value.slice.upper is None]
+        incs = _increments(w, j)
+        if not shrink or not incs:
+            return False, f"expected `{toks}[{j}] = <rest of the token>` or `{j} += 1` per iteration", False
+        # an if/else must choose between the two, so that one of them happens on every iteration
+        def progresses(stmts):
+            for st in stmts:
+                if isinstance(st, ast.If) and st.orelse:
+                    a, b = list(ast.walk(ast.Module(body=st.body, type_ignores=[]))), list(ast.walk(ast.Module(body=st.orelse, type_ignores=[])))
+                    has = lambda nodes: any(n in nodes for n in shrink) or any(isinstance(n, ast.AugAssign) and isinstance(n.target, ast.Name) and n.target.id == j for n in nodes)
+                    if has(a) and has(b):
+                        return True
+            return False
+        if not progresses(w.body):
+            return False, "no if/else that either shortens the current token or moves to the next one", False
+        if not all(v > 0 for v in incs):
+            return False, f"`{j}` moves backwards", True
+        # progress needs a non-empty match: minimum width of the argument regexes, computed from the compiled patterns
+        import re
 
-            from picosvg import svg_path_iter
+        from picosvg import svg_path_iter
 
-            widths = [re._parser.parse(p.pattern).getwidth()[0] for p in (svg_path_iter._FLOAT_RE, svg_path_iter._BOOL_RE)]
-            ok = min(widths) >= 1
-            return ok, f"argument regex may match the empty string (min widths {widths})"
-        return ok, "expected `raw_args[j] = arg[end:]` else `j += 1`"
+        widths = [re._parser.parse(p.pattern).getwidth()[0] for p in (svg_path_iter._FLOAT_RE, svg_path_iter._BOOL_RE)]
+        return min(widths) >= 1, f"an argument regex may match the empty string (min widths {widths}): the token never shrinks", True
     if kind == "bounded-for-or-variant":
         # either the historical `while True` is gone (a bounded for), or it must break when nothing is left AND detect cycles
         t = ast.unparse(w.test)
         if t == "True":
             before = "\n".join(ast.unparse(st) for st in fn.body if st.lineno < w.lineno) if fn is not None else ""
+            src = ast.unparse(w)
             guard_before = "raise ValueError" in before and ("circular" in before.lower() or "cycle" in before.lower())
             guard_inside = "raise ValueError" in src and ("cycle" in src.lower() or "depth" in src.lower())
-            return guard_before or guard_inside, "`while True` re-expands <use> elements with no bound and no cycle check: a use cycle never terminates"
-        return True, ""
-    return True, ""
+            return guard_before or guard_inside, "`while True` re-expands <use> elements with no bound and no cycle check: a use cycle never terminates", True
+        return True, "", True
+    return True, "", True
 
 
 def parser_obligations():
